@@ -97,9 +97,9 @@ class Prog:
             return self.lld[kind]
 
 
-def report(ctx, P, kind, cfg, lr, cls, detail, option, case):
+def report(ctx, P, kind, cfg, lr, cls, detail, option, case, all_kinds=False):
     kn = P.kindname(kind)
-    sig = f"{cls}:{detail}:option={option}:kind={kn}"
+    sig = f"{cls}:{detail}:option={option}:kind={'all' if all_kinds else kn}"
     ctx.note("violations-by-signature:" + sig)
     if not _once.first(sig):
         return
@@ -167,8 +167,28 @@ def judge(ctx, P, kind, cfg, base_out, case):
                 if pc.outcome(lr2, ref, kind)[0] == "same":
                     option = LEVELS[f][cfg[f]][0]
                     break
-    report(ctx, P, kind, cfg, lr, cls, detail, option, case)
+    if cfg is BASE:
+        # baseline failures are reported after all kinds of the program are known (kind=all when
+        # every kind fails the same way)
+        P.pending[kind] = (cfg, lr, cls, detail, case)
+    else:
+        report(ctx, P, kind, cfg, lr, cls, detail, option, case)
     return lr, cls, detail
+
+
+def flush_base(ctx, P, kinds):
+    groups = {}
+    for kind in kinds:
+        if kind in P.pending:
+            groups.setdefault(P.pending[kind][2:4], []).append(kind)
+    for (cls, detail), ks in groups.items():
+        if len(ks) == len(kinds) and len(kinds) >= 3:
+            cfg, lr, _c, _d, case = P.pending[ks[0]]
+            report(ctx, P, ks[0], cfg, lr, cls, detail, "any", case, all_kinds=True)
+        else:
+            for k in ks:
+                cfg, lr, _c, _d, case = P.pending[k]
+                report(ctx, P, k, cfg, lr, cls, detail, "any", case)
 
 
 def prepare(ctx, i):
@@ -178,7 +198,7 @@ def prepare(ctx, i):
     cm = r.choice(pg.CODE_MODELS)
     P = Prog(ctx, f"s{ctx.seed}i{i}", prog, cm)
     kinds = prog.kinds(cm)
-    ncfg = ctx.pick(10, 40)
+    ncfg = ctx.pick(9, 40)
     for k in sorted(prog.probe_kinds):
         ctx.note_set("probe-kinds", k)
     for f in sorted(prog.features):
@@ -204,6 +224,7 @@ def prepare(ctx, i):
             cfg["relax"] = 1
         cfgs.append((ks[j], cfg, f"{i}.{j}"))
     P.base_out = {}
+    P.pending = {}
     return P, kinds, cfgs
 
 
@@ -218,71 +239,85 @@ PINNED = {
     "tls-gd-noplt-static": dict(
         units=[("c", ["-O1", "-fpie", "-fno-plt"], '#include <stdio.h>\nextern __thread int tv __attribute__((tls_model("global-dynamic")));\n'
                 'int main() { printf("tls_gd m:tv = %d\\n", tv); return 0; }\n'),
-               ("c", ["-O1", "-fpie"], "__thread int tv = 5;\n")], kind="static", probe="tls_gd"),
+               ("c", ["-O1", "-fpie"], "__thread int tv = 5;\n")], kinds=["static", "static-pie", "pie", "dyn"]),
     # over-aligned .tbss after a less aligned .tdata: PT_TLS p_vaddr not congruent to p_align
     "tls-overaligned-static": dict(
         units=[("c", ["-O1", "-fpie"], '#include <stdio.h>\n__thread int a = 7;\n__thread long z __attribute__((aligned(256)));\n'
                 'int main() { printf("tls_def m:a = %d\\ntls_def m:z = %ld\\nalign m:z = %d\\n", a, z, (int)((unsigned long)&z % 256)); return 0; }\n')],
-        kind="static", probe="tls_def"),
+        kinds=["static", "static-pie", "pie", "dyn"]),
+    # TLSDESC local-dynamic: _TLS_MODULE_BASE_ + x@dtpoff in an executable
+    "tlsdesc-local-dynamic": dict(
+        units=[("c", ["-O2", "-fpie", "-mtls-dialect=gnu2"],
+                '#include <stdio.h>\nextern __thread short x0 __attribute__((tls_model("local-dynamic"), visibility("hidden")));\n'
+                '__thread char a __attribute__((tls_model("local-dynamic"), visibility("hidden"))) = 11;\n'
+                '__attribute__((noinline)) int get(void) { return a + x0; }\nextern int other(void);\n'
+                'int main() { printf("tls_ld m:a+x0 = %d\\ntls_def m:other = %d\\n", get(), other()); return 0; }\n'),
+               ("c", ["-O2", "-fpie"], '__thread int pad = 5;\n__thread short x0 __attribute__((visibility("hidden"))) = 22;\nint other(void) { return pad + x0; }\n')],
+        kinds=["static", "static-pie", "pie", "dyn"]),
     # address of a shared library's function taken in a non-PIC executable (canonical PLT)
     "fnptr-canonical-plt": dict(
         units=[("c", ["-O1", "-fno-pic", "-fno-pie"], '#include <stdio.h>\ntypedef int (*fp)(int);\nextern int lf(int);\nextern fp lib_addr(void);\n'
                 'fp tab[] = { lf };\nint main() { fp p = lf; printf("fnptr_code m:&lf = %d\\nfnptr m:tab = %d\\n", p == lib_addr(), tab[0] == lib_addr()); return 0; }\n')],
         lib=[("c", ["-O1", "-fPIC"], "int lf(int x) { return x + 1; }\ntypedef int (*fp)(int);\nfp lib_addr(void) { return lf; }\n")],
-        kind="shared-nopie", probe="fnptr_code"),
+        kinds=["shared-nopie"]),
 }
+PIN_KARGS = {"static": ["-static", "-no-pie"], "static-pie": ["-static-pie"], "pie": ["-pie"], "dyn": ["-no-pie"], "shared-nopie": ["-no-pie"]}
+
+
+def pinned_link(ctx, name, spec, objs, libobjs, kind, lk):
+    from vlib.common import run
+    wd = ctx.scratch.dir("pinned", name, kind, lk)
+    inputs = list(objs)
+    env = {}
+    lr = pg.LinkRun()
+    if libobjs:
+        lib = tools.fresh(os.path.join(wd, "libpin.so"))
+        lr.lib_link = tools.gcc_link(ctx, lk, ["-shared", *libobjs], lib)
+        if not lr.lib_link.ok:
+            return lr
+        inputs.append(lib)
+        env["LD_LIBRARY_PATH"] = wd
+    out = tools.fresh(os.path.join(wd, "prog"))
+    lr.out = out
+    lr.cmd = [*PIN_KARGS[kind], "-Wl,--no-gc-sections", *inputs]
+    lr.link = tools.gcc_link(ctx, lk, lr.cmd, out)
+    if lr.link.ok:
+        lr.run = run([out], timeout=60, extra_env=env, cwd=wd)
+    return lr
 
 
 def pinned(ctx, name):
     spec = PINNED[name]
     objs = [tools.compile_c(ctx, src, fl, lang=lang) for lang, fl, src in spec["units"]]
     libobjs = [tools.compile_c(ctx, src, fl, lang=lang) for lang, fl, src in spec.get("lib", [])]
-    kind = spec["kind"]
-    outs = {}
-    for lk in ("ld", "lld", "wild"):
-        wd = ctx.scratch.dir("pinned", name, lk)
-        inputs = list(objs)
-        env = {}
-        if libobjs:
-            lib = tools.fresh(os.path.join(wd, "libpin.so"))
-            rl = tools.gcc_link(ctx, lk, ["-shared", *libobjs], lib)
-            if not rl.ok:
-                outs[lk] = ("link-failed", "lib:" + pc.norm_err(rl.errtext()), None)
-                continue
-            inputs.append(lib)
-            env["LD_LIBRARY_PATH"] = wd
-        kargs = {"static": ["-static", "-no-pie"], "shared-nopie": ["-no-pie"]}[kind]
-        out = tools.fresh(os.path.join(wd, "prog"))
-        lr = pg.LinkRun()
-        lr.out = out
-        lr.cmd = [*kargs, "-Wl,--no-gc-sections", *inputs]
-        lr.link = tools.gcc_link(ctx, lk, lr.cmd, out)
-        if lr.link.ok:
-            from vlib.common import run
-            lr.run = run([out], timeout=60, extra_env=env, cwd=wd)
-        outs[lk] = lr
-    ld, lld, w = outs["ld"], outs["lld"], outs["wild"]
-    if not isinstance(ld, pg.LinkRun) or not ld.ok or not isinstance(lld, pg.LinkRun) or not lld.ok or ld.transcript != lld.transcript:
-        ctx.inconclusive("pinned: references fail or disagree")
-        return
-    if not isinstance(w, pg.LinkRun):
-        cls, detail = w[0], w[1]
-        w = pg.LinkRun()
-    else:
+    kinds = spec["kinds"]
+    bad = {}
+    for kind in kinds:
+        ld = pinned_link(ctx, name, spec, objs, libobjs, kind, "ld")
+        lld = pinned_link(ctx, name, spec, objs, libobjs, kind, "lld")
+        if not ld.ok or not lld.ok or ld.transcript != lld.transcript:
+            ctx.inconclusive("pinned: references fail or disagree")
+            continue
+        w = pinned_link(ctx, name, spec, objs, libobjs, kind, "wild")
         cls, detail = pc.outcome(w, ld.transcript, kind)
-    if cls == "same":
-        ctx.held(fingerprint="pinned:" + name, nontrivial=True)
-        return
-    sig = f"{cls}:{detail}:option=any:kind={kind}"
-    ctx.note("violations-by-signature:" + sig)
-    if not _once.first(sig):
-        return
-    files = {"ld.transcript": ld.transcript, "wild.transcript": w.transcript or "", "wild.stderr": w.link.errtext() if w.link else "",
-             "commands.txt": "gcc -B<wild> " + " ".join(w.cmd) + " -o prog\n"}
-    for n, (lang, fl, src) in enumerate(spec["units"] + spec.get("lib", [])):
-        files[f"src/unit{n}.c"] = src + "\n// flags: " + " ".join(fl) + "\n"
-    ctx.violation(sig, f"pinned reproducer {name}: wild's link behaves differently from GNU ld's and ld.lld's: {cls} {detail}; "
-                       f"ld prints {ld.transcript!r}, wild prints {w.transcript!r}", case="pinned-" + name, files=files)
+        if cls == "same":
+            ctx.held(fingerprint=f"pinned:{name}:{kind}", nontrivial=True)
+        else:
+            bad.setdefault((cls, detail), []).append((kind, ld, w))
+    for (cls, detail), lst in bad.items():
+        groups = [("all", lst[0])] if (len(lst) == len(kinds) and len(kinds) >= 3) else [(k, (k, l, w)) for k, l, w in lst]
+        for kn, (kind, ld, w) in groups:
+            sig = f"{cls}:{detail}:option=any:kind={kn}"
+            ctx.note("violations-by-signature:" + sig)
+            if not _once.first(sig):
+                continue
+            files = {"ld.transcript": ld.transcript, "wild.transcript": w.transcript or "",
+                     "wild.stderr": (w.link.errtext() if w.link else "") + (w.lib_link.errtext() if w.lib_link else ""),
+                     "commands.txt": "gcc -B<wild> " + " ".join(w.cmd) + " -o prog\n"}
+            for n, (lang, fl, src) in enumerate(spec["units"] + spec.get("lib", [])):
+                files[f"src/unit{n}.c"] = src + "\n// flags: " + " ".join(fl) + "\n"
+            ctx.violation(sig, f"pinned reproducer {name} ({kind}): wild's link behaves differently from GNU ld's and ld.lld's: {cls} "
+                               f"{detail}; ld prints {ld.transcript!r}, wild prints {w.transcript!r}", case="pinned-" + name, files=files)
 
 
 def main(ctx):
@@ -294,7 +329,7 @@ def main(ctx):
                        "ld.lld 14 must agree with it before a difference is reported",
                        "transcripts contain only linker-independent outcomes (generator validated: ld == lld on 32 seeds x all kinds)"]
     tools.wild()
-    n = ctx.pick(22, 200)
+    n = ctx.pick(20, 200)
     progs = list(range(n))
     pins = list(PINNED)
     if ctx.replay is not None:
@@ -305,5 +340,7 @@ def main(ctx):
     # phase 1: generate + compile; phase 2: reference + baseline per (program, kind); phase 3: option vectors
     prepared = pmap(lambda i: (i, prepare(ctx, i)), progs)
     pmap(lambda t: do_base(ctx, t[1], t[2], t[0]), [(i, P, k) for i, (P, kinds, _c) in prepared for k in kinds])
+    for _i, (P, kinds, _c) in prepared:
+        flush_base(ctx, P, kinds)
     pmap(lambda t: judge(ctx, t[0], t[1], t[2], t[0].base_out.get(t[1]), t[3]),
          [(P, k, cfg, case) for _i, (P, _k, cfgs) in prepared for k, cfg, case in cfgs])
